@@ -14,7 +14,7 @@ def strip(line):
 
 def run(ctx):
     C.prepare(ctx, 'C12', need_gen_oracle=False)
-    ok_mvp, out = C.ensure_oracle(ctx, 'mvp', ['theories/Mvp/Mvp12.vo', 'theories/Mvp/Mvp3.vo', 'theories/Isa/Refine.vo'], ['Mvp', 'Isa', 'Gen', 'Base', 'Comp'])
+    ok_mvp, out = C.ensure_oracle(ctx, 'mvp', ['theories/Mvp/Mvp12.vo', 'theories/Mvp/Mvp3.vo', 'theories/Mvp/Mvp4.vo', 'theories/Mvp/Mvp5.vo', 'theories/Isa/Refine.vo'], ['Mvp', 'Isa', 'Gen', 'Base', 'Comp'])
     if not ok_mvp:
         ctx.broken.append({'file': 'coq/theories/Mvp/Mvp12.v', 'line': None, 'lemma': 'extraction of the MVP-1/2 cycle model (depends on the regenerated opcode model)', 'error': out[-1500:]})
     cells = syscheck.load_domains()
@@ -47,16 +47,19 @@ def run(ctx):
         mism = []
         c1c2 = {}
         tie3 = []
-        for v in ('1', '2', '3'):
-            mlines = [v + '\t' + p.spec_case(S.FUEL, acc=False).rsplit('\t', 1)[0] for p in allp]
+        for v in ('1', '2', '3', '4', '5'):
+            def mfuel(k):
+                # MVP-4's model counts cycles, the others instructions
+                return 1000 * (spec[k][1] + 20) if v in ('4', '5') and spec[k][0] == 'ok' else (S.FUEL if v not in ('4', '5') else 20000)
+            mlines = [v + '\t' + p.spec_case(mfuel(k), acc=False).rsplit('\t', 1)[0] for k, p in enumerate(allp)]
             model = C.run_lines(C.BUILD + '/mvp_oracle', 'mvp', mlines, ctx.work, 'c12-m' + v) if ok_mvp else None
-            impl, il, raw = S.run_impl(ctx, [(p, v, 1, 10 ** 9) for p in allp], 'c12-i' + v)
+            impl, il, raw = S.run_impl(ctx, [(p, v, 1, S.budget_for(spec[k][1]) if v in ('4', '5') else 10 ** 9) for k, p in enumerate(allp)], 'c12-i' + v)
             for k, p in enumerate(allp):
                 r = strip(raw[k])
                 if r.startswith('panic'):
                     r = 'panic'
                 if model is not None and spec[k][0] == 'ok' and model[k] != r:
-                    (tie3 if v == '3' else mism).append((v, k, model[k], r, il[k]))
+                    (tie3 if v in ('3', '4', '5') else mism).append((v, k, model[k], r, il[k]))
                 if impl[k][0] == 'ok':
                     c1c2.setdefault(k, {})[v] = impl[k][1]
         for (v, k, m, r, line) in mism[:3]:
@@ -68,8 +71,8 @@ def run(ctx):
                            'expected': m, 'observed': r, 'harness_cmd': 'run', 'go_case': line, 'mismatches': len(mism)})
         if tie3 and not mism:
             v, k, m, r, line = tie3[0]
-            ctx.broken.append({'file': 'coq/theories/Mvp/Mvp3.v', 'line': None,
-                               'lemma': 'correspondence of the MVP-3 cycle-level model with proc/mvp3 (cycles, registers, memory)',
+            ctx.broken.append({'file': 'coq/theories/Mvp/Mvp%s.v' % v, 'line': None,
+                               'lemma': 'correspondence of the MVP-%s cycle-level model with proc/mvp%s (cycles, registers, memory)' % (v, v),
                                'error': 'model %s | implementation %s | %d cases differ' % (m, r, len(tie3)),
                                'harness_cmd': 'run', 'go_case': line})
         slower = [(k, d) for k, d in c1c2.items() if '1' in d and '2' in d and d['2'] > d['1']]
